@@ -312,7 +312,105 @@ class Problem(object):
         self.kind, self.what, self.interp = kind, what, interp
 
 
-def semantic_problem(f, r, exc, rnd, ninterp, stats=None):
+def formula_constants(nodes):
+    """constants occurring in the given formulas / values: {"int": set, "real": set, "str": set, "bv": {width: set}}"""
+    cs = {"int": set(), "real": set(), "str": set(), "bv": {}}
+    for n in tocoq.topo(list(nodes)):
+        nt = n.node_type()
+        if nt == op.INT_CONSTANT:
+            cs["int"].add(n.constant_value())
+        elif nt == op.REAL_CONSTANT:
+            cs["real"].add(Fraction(n.constant_value()))
+        elif nt == op.STR_CONSTANT:
+            cs["str"].add(n.constant_value())
+        elif nt == op.BV_CONSTANT:
+            cs["bv"].setdefault(n.bv_width(), set()).add(n.constant_value())
+    return cs
+
+
+def boundary_values(t, cs, rnd, small_bits=4):
+    """refeval values of sort t at which a rewrite that is right 'almost everywhere' goes wrong: for Bool and BV(w <= 4)
+    EVERY value; else 0, +-1, all-ones, min / max signed, 2^(w-1), and c-1, c, c+1 for every constant c of the sort
+    in the formula; None for sorts without a boundary notion here (arrays, user sorts)."""
+    if t.is_bool_type():
+        return [False, True]
+    if t.is_bv_type():
+        w = t.width
+        mx = (1 << w) - 1
+        if w <= small_bits:
+            return [refeval.BV(w, v) for v in range(mx + 1)]
+        vs = [0, 1, mx, mx - 1, 1 << (w - 1), (1 << (w - 1)) - 1, (1 << (w - 1)) + 1]
+        for c in sorted(cs["bv"].get(w, ())):
+            vs += [(c - 1) & mx, c, (c + 1) & mx]
+        for c in sorted(cs["int"]):              # shift amounts / rotation counts written as Int
+            if 0 <= c <= mx:
+                vs.append(c)
+        out = []
+        for v in vs:
+            if v not in out:
+                out.append(v)
+        return [refeval.BV(w, v) for v in out[:24]]
+    if t.is_int_type():
+        vs = [0, 1, -1, 2, -2]
+        for c in sorted(cs["int"], key=abs)[:8]:
+            vs += [c - 1, c, c + 1]
+        for s_ in sorted(cs["str"], key=len)[:4]:
+            vs += [len(s_) - 1, len(s_), len(s_) + 1]
+        out = []
+        for v in vs:
+            if v not in out:
+                out.append(v)
+        return out[:24]
+    if t.is_real_type():
+        vs = [Fraction(0), Fraction(1), Fraction(-1), Fraction(1, 2)]
+        for c in sorted(cs["real"], key=abs)[:6]:
+            vs += [c - 1, c, c + 1]
+        for c in sorted(cs["int"], key=abs)[:4]:
+            vs += [Fraction(c)]
+        out = []
+        for v in vs:
+            if v not in out:
+                out.append(v)
+        return out[:20]
+    if t.is_string_type():
+        vs = ["", "0", "a"]
+        for c in sorted(cs["str"], key=len)[:6]:
+            vs += [c, c + "0", c[1:], c[:-1]]
+        out = []
+        for v in vs:
+            if v not in out:
+                out.append(v)
+        return out[:16]
+    return None
+
+
+def boundary_assignments(symbols, cs, rnd, interp, full_limit, limit):
+    """[{symbol: value}]: every combination of the boundary values when there are at most `full_limit` of them, else
+    `limit` assignments: the 'uniform' combinations (the k-th boundary value for every symbol) and random ones;
+    symbols of sorts without boundary values get random values."""
+    symbols = sorted(symbols, key=lambda s_: s_.symbol_name())
+    cand = {}
+    for s_ in symbols:
+        vs = boundary_values(s_.symbol_type(), cs, rnd)
+        if vs is None:
+            vs = [refeval.random_value(rnd, s_.symbol_type(), interp) for _ in range(3)]
+        cand[s_] = vs
+    total = 1
+    for s_ in symbols:
+        total *= len(cand[s_])
+    if total <= full_limit:
+        return [dict(zip(symbols, combo)) for combo in itertools.product(*[cand[s_] for s_ in symbols])]
+    out = []
+    for k in range(max(len(v) for v in cand.values())):
+        if len(out) >= limit // 2:
+            break
+        out.append(dict((s_, cand[s_][k % len(cand[s_])]) for s_ in symbols))
+    while len(out) < limit:
+        out.append(dict((s_, rnd.choice(cand[s_])) for s_ in symbols))
+    return out
+
+
+def semantic_problem(f, r, exc, rnd, ninterp, stats=None, nboundary=6):
     """None, or a Problem: the implementation's result r (or exception) breaks the property on f."""
     try:
         tf = refeval.type_of(f)
@@ -335,8 +433,21 @@ def semantic_problem(f, r, exc, rnd, ninterp, stats=None):
         return None
     closed = not refeval.free_symbols([f]) and not fun_names(f)
     cache = refeval.EvalCache()
+    interps = []
     for k in range(1 if closed else ninterp):
-        it = refeval.random_interp(rnd, [f, r], int_range=rnd.choice([(-8, 8), (-3, 3), (-40, 40)]))
+        interps.append(refeval.random_interp(rnd, [f, r], int_range=rnd.choice([(-8, 8), (-3, 3), (-40, 40)])))
+    if not closed and nboundary:
+        # boundary interpretations: every value of the symbols when they are Bool / BV of at most 4 bits and there are
+        # at most 64 combinations, else 0 / +-1 / all-ones / min, max signed / neighbours of the formula's constants
+        syms = [s_ for s_ in f.get_free_variables() if not s_.symbol_type().is_function_type()]
+        if syms:
+            base = interps[0]
+            quantified = any(n.is_quantifier() or n.is_function_application() for n in tocoq.topo([f]))
+            for asg in boundary_assignments(syms, formula_constants([f]), rnd, base, 0 if quantified else 64, 2 if quantified else nboundary):
+                interps.append(refeval.interp_updated(base, asg))
+            if stats is not None:
+                stats["boundary_interpretations"] = stats.get("boundary_interpretations", 0) + len(interps) - ninterp
+    for it in interps:
         try:
             vf, ef = refeval.evaluate_ex(f, it, cache)
         except refeval.DivisionByZeroEvaluated:
@@ -1013,6 +1124,53 @@ class Directed(object):
             self.nest_stats["by_depth"][len(ch)] = self.nest_stats["by_depth"].get(len(ch), 0) + len(out) - n0
         return out
 
+    def gen_boundary(self):
+        """symbol x boundary-constant and boundary-constant x symbol for every binary BV operator at widths 1..4 (the
+        oracle then runs over EVERY value of the symbol), for the Int / Real operators and for the string operators."""
+        m = self.m
+        out = []
+        for w in (1, 2, 3, 4):
+            x, y = m.Symbol("bx%d" % w, BVType(w)), m.Symbol("by%d" % w, BVType(w))
+            mx = (1 << w) - 1
+            cs = []
+            for v in (0, 1, mx, mx - 1, 1 << (w - 1), (1 << (w - 1)) - 1):
+                if 0 <= v <= mx and v not in cs:
+                    cs.append(v)
+            cs = [m.BV(v, w) for v in cs]
+            bins = [m.BVAnd, m.BVOr, m.BVXor, m.BVAdd, m.BVSub, m.BVMul, m.BVUDiv, m.BVURem, m.BVLShl, m.BVLShr, m.BVAShr,
+                    m.BVSDiv, m.BVSRem, m.BVConcat, m.BVComp, m.BVULT, m.BVULE, m.BVSLT, m.BVSLE, m.Equals]
+            rels = [m.BVULT, m.BVULE, m.BVSLT, m.BVSLE, m.Equals]
+            one = m.BV(1 & mx, w)
+            for b in bins:
+                for c in cs:
+                    out += [b(x, c), b(c, x)]
+            for b in rels:
+                for c in cs:
+                    out += [b(m.BVAdd(x, one), c), b(c, m.BVAdd(x, one)), b(m.BVNot(x), c), b(m.Ite(self.p, x, c), c),
+                            m.Ite(b(x, c), self.i, self.j), m.And(b(x, c), self.p), b(c, m.BVNeg(x))]
+            for c in cs:
+                out += [m.BVNot(m.BVComp(x, c)), m.BVComp(c, m.BVAdd(x, one))]
+            if w > 1:
+                for c in cs:
+                    out += [m.BVULT(m.BVExtract(m.BVConcat(x, y), 0, w - 1), c), m.BVULT(m.BVZExt(x, 1), m.BVZExt(c, 1))]
+        for t in (INT, REAL):
+            v = self.i if t.is_int_type() else self.r
+            K = (lambda z: m.Int(z)) if t.is_int_type() else (lambda z: m.Real(z))
+            for z in (0, 1, -1, 2):
+                c = K(z)
+                for b in (m.Plus, m.Minus, m.Times, m.Div, m.LE, m.LT, m.Equals):
+                    out += [b(v, c), b(c, v), b(m.Plus(v, K(1)), c), b(c, m.Minus(v, K(1)))]
+                out += [m.Ite(m.LE(v, c), v, c), m.Ite(m.LT(c, v), c, v)]
+        sx, e, a = self.sx, m.String(""), m.String("a")
+        for c in (e, a):
+            out += [m.StrConcat(sx, c), m.StrConcat(c, sx), m.StrLength(m.StrConcat(c, sx)), m.StrContains(sx, c), m.StrContains(c, sx),
+                    m.StrPrefixOf(c, sx), m.StrPrefixOf(sx, c), m.StrSuffixOf(c, sx), m.StrSuffixOf(sx, c), m.StrReplace(sx, c, a),
+                    m.StrReplace(c, sx, a), m.StrReplace(sx, a, c), m.Equals(sx, c), m.StrToInt(m.StrConcat(sx, c))]
+            for z in (0, 1, -1):
+                out += [m.StrIndexOf(sx, c, m.Int(z)), m.StrIndexOf(c, sx, m.Int(z)), m.StrCharAt(sx, m.Int(z)), m.StrCharAt(c, self.i),
+                        m.StrSubstr(sx, m.Int(z), m.Int(1)), m.StrSubstr(sx, m.Int(0), m.Int(z)), m.StrSubstr(c, self.i, m.Int(z))]
+        return out
+
     def gen_uf_quant(self):
         m = self.m
         out = []
@@ -1354,7 +1512,8 @@ def run_simplify(chk, rnd, tier):
     t1 = time.time()
     plan = [("bool", lambda d: d.gen_bool()), ("int", lambda d: d.gen_arith(INT)), ("real", lambda d: d.gen_arith(REAL)),
             ("strings", lambda d: d.gen_strings()), ("string-hazard", lambda d: d.gen_string_hazard()),
-            ("arrays", lambda d: d.gen_arrays()), ("array-nest", lambda d: d.gen_array_nest()), ("uf-quant", lambda d: d.gen_uf_quant())]
+            ("arrays", lambda d: d.gen_arrays()), ("array-nest", lambda d: d.gen_array_nest()), ("boundary", lambda d: d.gen_boundary()),
+            ("uf-quant", lambda d: d.gen_uf_quant())]
     for w in ((4, 8, 32, 64, 129) if quick else (1, 2, 3, 4, 5, 8, 16, 32, 64, 129)):
         plan.append(("bv-shapes-%d" % w, lambda d, w=w: d.gen_bv_shapes(w)))
     for w in ((1, 2, 3, 4) if quick else (1, 2, 3, 4, 5)):
